@@ -37,7 +37,7 @@ SEEDS = {
  "C09-5": ("C09", 3, "privileged caller on a kernel with fsopen but without hidepid=ptraceable/subset=pid (fsconfig SET_STRING fails) and an over-mount on the host /proc/thread-self/fd: falls back to a recursive clone of the host /proc", ["C09"], "missed first; host /proc states (tmpfs over /proc, look-alike links over <pid>/fd) and an 'old fsconfig' kernel were added to C09 - which also exposed genuine defect 20"),
  "C10-3": ("C10", 1, "openat2 backend, an operation going through openat2_retry, 16 EAGAINs in a row: OsError(EAGAIN) instead of a safety violation", ["C10"], F),
  "C10-4": ("C10", 2, "remove_all below a directory with a child that persistently cannot be removed (descriptor limit reached at depth): the child's error is ignored and the directory rescanned forever", ["C10"], "missed first (the EXHAUST deviation makes the rescan fail too); real RLIMIT_NOFILE values that bite in the middle of the operation were added"),
- "C10-5": ("C10", 3, "open_follow on a magic-link through a handle on the host /proc, a mount placed inside open_follow's documented race window (after its readlink probe) AND one failing statx at the mount-id comparison: unknown mount id passes as 'same mount'", [], "NOT CAUGHT: needs a racing mount in open_follow (C06 quantifies racing mounts over non-following opens only; the library documents the window) together with an injected fault (C10 quantifies single faults without an attacker); the combination of the two deviation kinds was not built"),
+ "C10-5": ("C10", 3, "open_follow on a magic-link through a handle on the host /proc, a mount placed inside open_follow's documented race window (when the mount-id comparison is about to be made) AND one failing statx at a mount-id probe: unknown mount id passes as 'same mount'", ["C10"], "missed first (needs an attacker action and a fault in one execution); scenarios with a SCRIPTED over-mount at the comparison point were added to C10's fault enumeration, with the rule that the over-mounted object is never returned"),
  "C11-3": ("C11", 1, "Rust-API try_clone(): dup without FD_CLOEXEC", ["C11", "C05"], F),
  "C11-4": ("C11", 2, "any failing call whose error comes from a syscall wrapper, inspected while the Err value is alive / before pathrs_errorinfo(): FrozenFd keeps a dup of the directory descriptor", ["C11"], "missed first; the worker now keeps error values alive (and C error ids unfetched) until the descriptor table has been inspected"),
  "C11-5": ("C11", 3, "root, first lookup of the process that hits ENOENT in the masked handle: the temporary unmasked handle is cached in a static and never closed", ["C11"], F),
